@@ -299,7 +299,7 @@ def _analysis(case, r, per_axis):
         Gd, = torch.autograd.grad([o3[0]] + list(o3[1]), xs, [torch.tensor(a) for a in gs])
         gflat = np.concatenate([a.reshape(N, C, -1) for a in gs], axis=2)       # (N,C,total)
         wantd = np.einsum('nct,ti->nci', gflat, got).reshape([N, C] + size)
-        told = 1e-9 * max(g * max(core.maxabs(a) for a in gs), 1e-300)
+        told = 1e-9 * max(g * max(core.maxabs(a) for a in gs), core.maxabs(wantd), 1e-300)
         okc, err = core.close(Gd.numpy(), wantd, told)
         if not okc:
             r.fail('analysis_vjp_slices:dim%d' % dim, 'the (N,C) backward is not the per-slice action of the N=C=1 backward: '
@@ -437,7 +437,7 @@ def _synthesis(case, r, per_axis):
                 r.fail('none_grad_dense', '%s received None on the (N,C) call' % (k,))
                 continue
             wantd = np.einsum('nco,oi->nci', gv.reshape(N, C, -1), measured[k]).reshape((N, C) + shapes[k])
-            told = 1e-9 * max(g * core.maxabs(gv), 1e-300)
+            told = 1e-9 * max(g * core.maxabs(gv), core.maxabs(wantd), 1e-300)
             okc, err = core.close(gk.numpy(), wantd, told)
             if not okc:
                 r.fail('synthesis_vjp_slices:dim%d' % dim, 'the (N,C) backward of %s is not the per-slice action of the '
